@@ -123,6 +123,12 @@ CHECKS.update({
   text="11 argument sets (good/bad/unknown files, directories with and without -r, dangling symlink, missing file, stdin) x 64 flag combinations x 19 expressions: stdout must be a concatenation of exactly the expected per-file blocks; -m records must be single lines that parse back (harness-side XML parse) to the selected node's subtree with expanded names; diagnostics on stderr name each bad input.",
   note="Open known finding C20-newline-in-comment-or-pi. JSON-derived trees under -m (names like #obj, adjacent text nodes) are not judged for parse-back. Attribute/namespace nodes under -m only need one line carrying name and value.",
   ref="2 C20"),
+ "C15": dict(
+  level="exploration",
+  technique="exhaustive enumeration of all strings up to a length bound over five byte/token alphabets through every public entry point, in worker subprocesses",
+  text="All expression token strings (<=3/4 tokens incl. nil variables and user functions returning (nil,nil)/errors/panicking) built and executed on 2 documents under 3 binding sets; all expression byte strings <=4/5 over 20 bytes incl. invalid UTF-8 and NUL; all XML/JSON byte strings <=5/6 and HTML token strings <=4/5 through the readers followed by 6 queries; the well-typed C01/C08 universes from every node (no 'xpath query panic'); nesting-depth sweeps in subprocesses. Oracle: returns (value,nil) or (_,err); no panic escapes; the process survives.",
+  note="Bounded exhaustive, not coverage-guided. Unmarshal targets are covered by C19. Termination of pathological parses (the GLL parser is super-linear in '/*/*...') beyond the sweep sizes is not judged.",
+  ref="2 C15"),
 })
 
 NOT_YET = {}
